@@ -16,7 +16,7 @@ occur free in the live assertions:
     user sort S     -> two abstract values (as @S_0 S), (as @S_1 S)
 Hence `sat` / `unsat` for formulas over Int is RELATIVE TO THE RANGE -N..N of the free Int
 symbols: `unsat` means "no model with every Int constant in -N..N".  Intermediate values are
-unbounded Python ints (no overflow).  More than 2,000,000 assignments -> `unknown`.
+unbounded Python ints (no overflow).  `unknown` after 2,000,000 assignments tried without a model.
 Enumeration order is deterministic (symbols sorted by name, values ascending, false < true);
 the first satisfying assignment becomes the model.  Constants not occurring in the
 assertions get the first value of their domain (false, 0 bit-vector, -N, @S_0).
@@ -908,9 +908,11 @@ class Solver:
                 raise SmtError("unsupported: bit-vector width > %d" % MAX_BV_WIDTH)
             total *= len(domain(decls[n], self.int_range))
         self._changed()
-        if total > MAX_ASSIGNMENTS:
-            return 'unknown'
+        tried = 0
         for values in itertools.product(*(domain(decls[n], self.int_range) for n in free)):
+            tried += 1
+            if tried > MAX_ASSIGNMENTS:
+                return 'unknown'
             env.update(zip(free, values))
             if all(eval_term(t, env) for t in terms):
                 self.mode = "sat"
